@@ -15,7 +15,7 @@ type c06 struct{}
 func (c06) ID() string    { return "C06" }
 func (c06) Level() string { return "exploration" }
 func (c06) Rule() string {
-	return "cases = every CNF of the families T2, D3, LL, B3 (length 4), S3, S4, L6, M (as C01) x entry point x learned-clause limit (default / 1 / 2); each case is executed with certificate generation on (lines drained from the certificate channel) once per heuristic choice list up to the deviation bound, and once with certification off under the same choice list; every certificate is replayed by an independent RUP checker and every line is also checked for implication against the truth table. A case is non-trivial when its certificate has at least one line."
+	return "cases = every CNF of the families T2, D3, LL, B3 (length 4), S3, S4, L6, M (as C01), plus CPA (the configuration of gophersat -cp -certified: DetectAtMostOne, cutting planes and a certificate, on the pigeonhole members of M and a 13-clause regression instance with all one-edit neighbours) x entry point x learned-clause limit (default / 1 / 2); each case is executed with certificate generation on (lines drained from the certificate channel) once per heuristic choice list up to the deviation bound, and once with certification off under the same choice list; every certificate is replayed by an independent RUP checker and every line is also checked for implication against the truth table. A case is non-trivial when its certificate has at least one line."
 }
 func (c06) Assumptions() []string {
 	return []string{
